@@ -25,10 +25,28 @@ Emitted into coq/Gen/Generated.v, for X in {scans, compscans}:
   it_X_final_reset  : string   reset of the final re-select
   it_X_name_sensor  : string   sensor whose unique_values[indices[v]] is yielded
 The model (coq/Model/Scans.v) USES these constants; the theorems of Props/C03.v are re-checked against them.
+
+Second item: the run-on numbering of scans / compound scans in ConcatenatedDataSet.__init__ (katdal/concatdata.py).
+Expected skeleton (fail-closed):
+
+    decorated_datasets = [(d.<SORT_KEY>, d) for d in datasets]
+    decorated_datasets.sort()
+    self.datasets = datasets = [d[-1] for d in decorated_datasets]
+    ...
+    <S1>, <S2> = <START1 int>, <START2 int>
+    for n, d in enumerate(datasets):
+        ...
+        <V> = d.sensor.get(<SENSOR>)                                  } for SENSOR in Observation/scan_index,
+        <V>.unique_values = [index + <S> for index in <V>.unique_values]   } Observation/compscan_index, each with its
+        <S> += len(<V>.unique_values)                                 } own running offset <S>, assigned nowhere else
+        d.sensor[<SENSOR>] = <V>                                      }
+
+Emitted: cc_sort_key, and for X in {scan, compscan}: cc_X_sensor, cc_X_start (Z), cc_X_shift ("index+start"),
+cc_X_advance ("len(unique_values)").  The model coq/Model/ScansConcat.v USES cc_X_start and cc_X_advance.
 """
 import ast
 
-from vh.translate import TranslateError, _class, _func, _parse, coq_string
+from vh.translate import TranslateError, _class, _func, _parse, coq_string, coq_Z
 
 REL = 'katdal/dataset.py'
 
@@ -181,4 +199,152 @@ def item_iterators(repo, out):
             out.append('Definition it_%s_%s : string := %s.' % (name, k, coq_string(g[k])))
 
 
-ITEMS = [item_iterators]
+# ---------------------------------------------------------------------------------------------------------------
+# run-on numbering of a concatenation
+
+CREL = 'katdal/concatdata.py'
+
+
+def _name(node, ident=None):
+    return isinstance(node, ast.Name) and (ident is None or node.id == ident)
+
+
+def _attr_of(node, var, attr):
+    return isinstance(node, ast.Attribute) and node.attr == attr and _name(node.value, var)
+
+
+def _d_sensor(node):
+    return _attr_of(node, 'd', 'sensor')
+
+
+def _sort_key(body):
+    what = 'ConcatenatedDataSet.__init__'
+    for i, s in enumerate(body):
+        if (isinstance(s, ast.Assign) and len(s.targets) == 1 and _name(s.targets[0], 'decorated_datasets')):
+            break
+    else:
+        raise TranslateError('%s: decorated_datasets = [...] not found' % what)
+    lc = s.value
+    ok = (isinstance(lc, ast.ListComp) and len(lc.generators) == 1 and not lc.generators[0].ifs
+          and _name(lc.generators[0].target, 'd') and _name(lc.generators[0].iter, 'datasets')
+          and isinstance(lc.elt, ast.Tuple) and len(lc.elt.elts) == 2 and isinstance(lc.elt.elts[0], ast.Attribute)
+          and _name(lc.elt.elts[0].value, 'd') and _name(lc.elt.elts[1], 'd'))
+    if not ok:
+        raise TranslateError('%s: decorated_datasets is not [(d.<key>, d) for d in datasets]' % what)
+    key = lc.elt.elts[0].attr
+    if len(body) < i + 3:
+        raise TranslateError('%s: sort / undecorate statements missing' % what)
+    s1, s2 = body[i + 1], body[i + 2]
+    if not (isinstance(s1, ast.Expr) and _is_call(s1.value, 'sort') and _name(s1.value.func.value, 'decorated_datasets')
+            and not s1.value.args and not s1.value.keywords):
+        raise TranslateError('%s: decorated_datasets.sort() not found' % what)
+    ok = (isinstance(s2, ast.Assign) and len(s2.targets) == 2 and _self_attr(s2.targets[0], 'datasets')
+          and _name(s2.targets[1], 'datasets') and isinstance(s2.value, ast.ListComp)
+          and len(s2.value.generators) == 1 and not s2.value.generators[0].ifs
+          and _name(s2.value.generators[0].iter, 'decorated_datasets') and isinstance(s2.value.elt, ast.Subscript)
+          and _name(s2.value.elt.value, s2.value.generators[0].target.id if _name(s2.value.generators[0].target) else None)
+          and isinstance(s2.value.elt.slice, ast.UnaryOp) and isinstance(s2.value.elt.slice.op, ast.USub)
+          and isinstance(s2.value.elt.slice.operand, ast.Constant) and s2.value.elt.slice.operand.value == 1)
+    if not ok:
+        raise TranslateError('%s: self.datasets = datasets = [d[-1] for d in decorated_datasets] not found' % what)
+    # `datasets` must not be rebound afterwards (the loop below has to run over the sorted list)
+    for s in body[i + 3:]:
+        for n in ast.walk(s):
+            if isinstance(n, ast.Name) and n.id == 'datasets' and isinstance(n.ctx, ast.Store):
+                raise TranslateError('%s: datasets is rebound after sorting' % what)
+    return key
+
+
+def _run_on(fn):
+    what = 'ConcatenatedDataSet.__init__'
+    body = fn.body
+    inits = {}
+    for s in body:
+        if (isinstance(s, ast.Assign) and len(s.targets) == 1 and isinstance(s.targets[0], ast.Tuple)
+                and isinstance(s.value, ast.Tuple) and len(s.targets[0].elts) == len(s.value.elts)
+                and all(_name(t) and t.id.endswith('_start') for t in s.targets[0].elts)):
+            for t, v in zip(s.targets[0].elts, s.value.elts):
+                if not (isinstance(v, ast.Constant) and isinstance(v.value, int) and not isinstance(v.value, bool)):
+                    raise TranslateError('%s: initial offset of %s is not an int literal' % (what, t.id))
+                if t.id in inits:
+                    raise TranslateError('%s: %s initialised twice' % (what, t.id))
+                inits[t.id] = v.value
+    loops = [s for s in body if isinstance(s, ast.For) and isinstance(s.iter, ast.Call)
+             and _name(s.iter.func, 'enumerate') and len(s.iter.args) == 1
+             and _name(s.iter.args[0], 'datasets') and isinstance(s.target, ast.Tuple) and len(s.target.elts) == 2
+             and _name(s.target.elts[1], 'd')]
+    loops = [l for l in loops if any(isinstance(n, ast.Constant) and n.value == 'Observation/scan_index'
+                                     for n in ast.walk(l))]
+    if len(loops) != 1 or loops[0].orelse:
+        raise TranslateError('%s: expected exactly one `for n, d in enumerate(datasets)` loop fixing the index sensors'
+                             % what)
+    lb = loops[0].body
+    out = {}
+    for x in ('scan', 'compscan'):
+        sensor = 'Observation/%s_index' % x
+        pos = [i for i, s in enumerate(lb) if isinstance(s, ast.Assign) and len(s.targets) == 1 and _name(s.targets[0])
+               and _is_call(s.value, 'get') and _d_sensor(s.value.func.value) and len(s.value.args) == 1
+               and not s.value.keywords and isinstance(s.value.args[0], ast.Constant) and s.value.args[0].value == sensor]
+        if len(pos) != 1 or len(lb) < pos[0] + 4:
+            raise TranslateError('%s: <v> = d.sensor.get(%r) not found exactly once' % (what, sensor))
+        g, sh, adv, put = lb[pos[0]:pos[0] + 4]
+        v = g.targets[0].id
+        # <v>.unique_values = [index + <S> for index in <v>.unique_values]
+        ok = (isinstance(sh, ast.Assign) and len(sh.targets) == 1 and _attr_of(sh.targets[0], v, 'unique_values')
+              and isinstance(sh.value, ast.ListComp) and len(sh.value.generators) == 1
+              and not sh.value.generators[0].ifs and _name(sh.value.generators[0].target)
+              and _attr_of(sh.value.generators[0].iter, v, 'unique_values')
+              and isinstance(sh.value.elt, ast.BinOp) and isinstance(sh.value.elt.op, ast.Add))
+        if not ok:
+            raise TranslateError('%s: %s.unique_values = [index + <start> for index in %s.unique_values] not found'
+                                 % (what, v, v))
+        it = sh.value.generators[0].target.id
+        a, b = sh.value.elt.left, sh.value.elt.right
+        if _name(a, it) and _name(b) and b.id != it:
+            start = b.id
+        elif _name(b, it) and _name(a) and a.id != it:
+            start = a.id
+        else:
+            raise TranslateError('%s: shift of %s is not <index> + <start>' % (what, sensor))
+        if start not in inits:
+            raise TranslateError('%s: running offset %s has no int initial value' % (what, start))
+        # <S> += len(<v>.unique_values)
+        ok = (isinstance(adv, ast.AugAssign) and isinstance(adv.op, ast.Add) and _name(adv.target, start)
+              and isinstance(adv.value, ast.Call) and _name(adv.value.func, 'len') and len(adv.value.args) == 1
+              and not adv.value.keywords and _attr_of(adv.value.args[0], v, 'unique_values'))
+        if not ok:
+            raise TranslateError('%s: %s += len(%s.unique_values) not found (the offset must advance by the number of '
+                                 '%ss the data set HAS)' % (what, start, v, x))
+        # d.sensor[<SENSOR>] = <v>
+        ok = (isinstance(put, ast.Assign) and len(put.targets) == 1 and isinstance(put.targets[0], ast.Subscript)
+              and _d_sensor(put.targets[0].value) and isinstance(put.targets[0].slice, ast.Constant)
+              and put.targets[0].slice.value == sensor and _name(put.value, v))
+        if not ok:
+            raise TranslateError('%s: d.sensor[%r] = %s not found' % (what, sensor, v))
+        # the offset and the sensor variable are assigned nowhere else
+        stores = [n for n in ast.walk(fn) if isinstance(n, ast.Name) and n.id == start and isinstance(n.ctx, ast.Store)]
+        if len(stores) != 2:
+            raise TranslateError('%s: %s is assigned %d times (expected initialisation + one +=)' % (what, start, len(stores)))
+        vstores = [n for n in ast.walk(fn) if isinstance(n, ast.Name) and n.id == v and isinstance(n.ctx, ast.Store)]
+        if len(vstores) != 1:
+            raise TranslateError('%s: %s is assigned %d times' % (what, v, len(vstores)))
+        out[x] = dict(sensor=sensor, start=inits[start], var=start)
+    if out['scan']['var'] == out['compscan']['var']:
+        raise TranslateError('%s: scans and compound scans share one running offset' % what)
+    return out
+
+
+def item_concat_run_on(repo, out):
+    tree = _parse(repo, CREL)
+    cls = _class(tree, 'ConcatenatedDataSet', CREL)
+    fn = _func(cls, '__init__', CREL)
+    out.append('Definition cc_sort_key : string := %s.' % coq_string(_sort_key(fn.body)))
+    r = _run_on(fn)
+    for x in ('scan', 'compscan'):
+        out.append('Definition cc_%s_sensor : string := %s.' % (x, coq_string(r[x]['sensor'])))
+        out.append('Definition cc_%s_start : Z := %s.' % (x, coq_Z(r[x]['start'])))
+        out.append('Definition cc_%s_shift : string := %s.' % (x, coq_string('index+start')))
+        out.append('Definition cc_%s_advance : string := %s.' % (x, coq_string('len(unique_values)')))
+
+
+ITEMS = [item_iterators, item_concat_run_on]
